@@ -700,7 +700,11 @@ def run_check(prop, mod, tier, seed):
 
         can_run = build.harness_ok and build.model_ok
         if can_run:
-            mod.correspondence(ctx)
+            try:
+                mod.correspondence(ctx)
+            except Exception:
+                import traceback
+                broken.append({"what": "check-machinery", "detail": "the correspondence step raised an exception on this tree", "log": traceback.format_exc()[-1500:]})
             if ctx.mismatches:
                 fams = sorted(set(m["family"] for m in ctx.mismatches))
                 broken.append({"what": "correspondence", "detail": "model and implementation disagree in families %s (%d cases)" % (fams, len(ctx.mismatches)),
@@ -711,7 +715,11 @@ def run_check(prop, mod, tier, seed):
             if not ks["ok"]:
                 broken.append({"what": "kernel-sample", "detail": "the kernel's evaluation of the model differs from the extracted program: " + ks.get("failure", "")[:600]})
         if build.harness_ok:
-            mod.oracle(ctx, deep=bool(broken) or tier == "thorough")
+            try:
+                mod.oracle(ctx, deep=bool(broken) or tier == "thorough")
+            except Exception:
+                import traceback
+                broken.append({"what": "check-machinery", "detail": "the direct oracle raised an exception on this tree", "log": traceback.format_exc()[-1500:]})
 
         known = load_known()
         real = []
